@@ -20,11 +20,13 @@ import (
 	"flag"
 	"fmt"
 	"os"
+	"os/exec"
 	"runtime"
 	"sort"
 	"strconv"
 	"strings"
 	"sync"
+	"sync/atomic"
 	"time"
 
 	"github.com/goplus/xgo/x/watcher"
@@ -115,6 +117,9 @@ type sys struct {
 	rec  recorder
 	viol []string
 	vmu  sync.Mutex
+	// what the harness knows about its own goroutines: fetcher goroutines alive / inside c.Fetch
+	live, inFetch int32
+	leaked        int // goroutines left blocked in Fetch by earlier (failed) cases of this process
 }
 
 func (s *sys) violation(v string) {
@@ -131,7 +136,9 @@ func (s *sys) report(thr, d int, variant uint64) {
 
 func (s *sys) fetch(thr int, full bool) int {
 	s.rec.add(event{kind: evCallG, thr: thr})
+	atomic.AddInt32(&s.inFetch, 1)
 	got := s.c.Fetch(full)
+	atomic.AddInt32(&s.inFetch, -1)
 	if full {
 		if !strings.HasPrefix(got, root+"/") {
 			s.violation("fullpath-prefix:" + got)
@@ -462,60 +469,101 @@ func pendingFetchers(evs []event) []int {
 	return p
 }
 
-// waitStable waits until no event has been recorded for `quiet`
-func (s *sys) waitStable(quiet time.Duration) {
-	last := s.rec.size()
-	t0 := time.Now()
-	for time.Since(t0) < quiet {
-		time.Sleep(quiet / 8)
-		if n := s.rec.size(); n != last {
-			last = n
-			t0 = time.Now()
+func countRets(evs []event) int {
+	n := 0
+	for _, e := range evs {
+		if e.kind == evRetG {
+			n++
 		}
+	}
+	return n
+}
+
+// blockedInFetch: goroutines of this process that are below (*sys).fetch and are neither running
+// nor runnable (for the code as it is: parked in sync.Cond.Wait, or queued on the mutex).  This is
+// how "blocked" is told from "slow": by the goroutine status of the runtime, not by a timer.
+func blockedInFetch() int {
+	buf := make([]byte, 1<<18)
+	for {
+		n := runtime.Stack(buf, true)
+		if n < len(buf) {
+			buf = buf[:n]
+			break
+		}
+		buf = make([]byte, 2*len(buf))
+	}
+	cnt := 0
+	for _, g := range strings.Split(string(buf), "\n\n") {
+		if !strings.Contains(g, "main.(*sys).fetch(") {
+			continue
+		}
+		hdr := g
+		if i := strings.IndexByte(g, '\n'); i >= 0 {
+			hdr = g[:i]
+		}
+		if strings.Contains(hdr, "[running") || strings.Contains(hdr, "[runnable") || strings.Contains(hdr, "[syscall") {
+			continue
+		}
+		cnt++
+	}
+	return cnt
+}
+
+const patience = 30 * time.Second
+
+// settle waits until every live fetcher goroutine of this run is inside Fetch and blocked there
+// (or no fetcher is inside Fetch).  Callers make sure no reporter is running.
+func (s *sys) settle() bool {
+	t0 := time.Now()
+	for {
+		n0 := s.rec.size()
+		in := atomic.LoadInt32(&s.inFetch)
+		live := atomic.LoadInt32(&s.live)
+		if live == in {
+			if in == 0 {
+				return true
+			}
+			b := blockedInFetch() - s.leaked
+			if int32(b) == in && atomic.LoadInt32(&s.inFetch) == in && atomic.LoadInt32(&s.live) == live && s.rec.size() == n0 {
+				return true
+			}
+		}
+		if time.Since(t0) > patience {
+			return false
+		}
+		time.Sleep(100 * time.Microsecond)
 	}
 }
 
-// observeQ: the system is quiet and fetchers are blocked.  If the history up to here cannot be
-// explained (the set cannot be empty), wait longer before believing it: a slow goroutine is not
-// a lost wake-up.
-func (s *sys) observeQ(nthr int, quiet time.Duration) (pending []int, verdict string) {
-	deadline := time.Now().Add(3 * time.Second)
+// observeQ records the observation "these fetchers are blocked and nothing else runs"
+func (s *sys) observeQ() (pending []int, verdict string) {
 	for {
-		s.waitStable(quiet)
-		evs := s.rec.snapshot()
-		pending = pendingFetchers(evs)
-		if len(pending) == 0 {
-			return nil, "ok"
+		if !s.settle() {
+			return nil, "fetch-neither-returns-nor-blocks"
 		}
-		probe := append(append([]event(nil), evs...), event{kind: evQ, pending: pending})
-		a := analyse(nthr, probe)
-		if a.verdict == "ok" {
-			s.rec.mu.Lock()
-			if len(s.rec.evs) == len(evs) { // nothing happened meanwhile
-				s.rec.evs = append(s.rec.evs, event{kind: evQ, pending: pending})
-				s.rec.mu.Unlock()
-				return pending, "ok"
-			}
+		s.rec.mu.Lock()
+		pending = pendingFetchers(s.rec.evs)
+		if int32(len(pending)) != atomic.LoadInt32(&s.inFetch) { // something moved meanwhile
 			s.rec.mu.Unlock()
 			continue
 		}
-		if time.Now().After(deadline) {
-			s.rec.add(event{kind: evQ, pending: pending})
-			return pending, a.verdict
+		if len(pending) > 0 {
+			s.rec.evs = append(s.rec.evs, event{kind: evQ, pending: pending})
 		}
-		quiet = 200 * time.Millisecond
+		s.rec.mu.Unlock()
+		return pending, "ok"
 	}
 }
 
 // release the blocked fetchers one at a time with poison directories; each report must wake one
-func (s *sys) release(mainThr int, pending []int, pill *int) string {
-	for range pending {
-		before := len(pendingFetchers(s.rec.snapshot()))
+func (s *sys) release(mainThr int, n int, pill *int) string {
+	for k := 0; k < n; k++ {
+		before := countRets(s.rec.snapshot())
 		*pill++
 		s.report(mainThr, *pill, 0)
 		t0 := time.Now()
-		for len(pendingFetchers(s.rec.snapshot())) >= before {
-			if time.Since(t0) > 3*time.Second {
+		for countRets(s.rec.snapshot()) == before {
+			if time.Since(t0) > patience {
 				return "fetcher-not-woken-by-report"
 			}
 			time.Sleep(50 * time.Microsecond)
@@ -562,103 +610,99 @@ func finish(s *sys, id string, nthr int, final string, verdict string, shape str
 	return result{id: id, nthr: nthr, history: a.history, trace: a.trace, final: final, verdict: v, shape: shape}
 }
 
-// script: tokens R<d> (report) and F (fetch; performed by a helper goroutine when the set is empty,
-// in which case the next token must be a report, which has to wake it)
+func newSys() *sys {
+	return &sys{c: watcher.NewChanges(root), leaked: blockedInFetch()}
+}
+
+// script: tokens R<d> (report), R<d>+R<e>+.. (burst of reports issued back to back) and F (fetch).
+// Every F is performed by a fresh goroutine (threads 1,2,..) and the system is left to settle: the
+// fetch has returned or is blocked (several may be blocked at once).  After every report (burst) the
+// system settles again.  At the end the set is drained (fetches until one blocks) and the blocked
+// fetchers are released one by one with poison directories.  The verdict comes from the analysis
+// of the recorded history (every observation of blocked fetchers requires the empty set).
 func runScript(id string, toks []string) (res result) {
+	nthr := 1 + 12
+	for _, t := range toks {
+		if t == "F" {
+			nthr++
+		}
+	}
 	defer func() {
 		if e := recover(); e != nil {
-			res = result{id: id, nthr: 2, verdict: fmt.Sprintf("panic: %v", e), final: "?"}
+			res = result{id: id, nthr: nthr, verdict: fmt.Sprintf("panic: %v", e), final: "?"}
 		}
 	}()
-	s := &sys{c: watcher.NewChanges(root)}
-	ref := map[int]bool{}
+	s := newSys()
 	verdict := "ok"
-	var helper chan int
-	nblock := 0
+	nhelp := 0
+	maxblocked := 0
+	settled := func() int {
+		pending, v := s.observeQ()
+		if v != "ok" {
+			verdict = v
+		}
+		if len(pending) > maxblocked {
+			maxblocked = len(pending)
+		}
+		return len(pending)
+	}
+	spawnFetch := func(full bool) int {
+		nhelp++
+		thr := nhelp
+		atomic.AddInt32(&s.live, 1)
+		go func() { s.fetch(thr, full); atomic.AddInt32(&s.live, -1) }()
+		return settled()
+	}
+	blocked := 0
 	for k, t := range toks {
 		if verdict != "ok" {
 			break
 		}
 		switch {
 		case t == "F":
-			if len(ref) > 0 {
-				done := make(chan int, 1)
-				full := k%2 == 1
-				go func() { done <- s.fetch(0, full) }()
-				select {
-				case d := <-done:
-					if !ref[d] {
-						verdict = "fetch-returned-directory-not-in-set"
-					}
-					delete(ref, d)
-				case <-time.After(3 * time.Second):
-					verdict = "directory-lost:fetch-blocks-with-reported-directories-left"
-				}
-			} else {
-				if helper != nil {
-					verdict = "script-error:two-blocking-fetches"
+			blocked = spawnFetch(k%2 == 1)
+		case strings.HasPrefix(t, "R"):
+			var ds []int
+			for _, part := range strings.Split(t, "+") {
+				d, err := strconv.Atoi(strings.TrimPrefix(part, "R"))
+				if err != nil || !strings.HasPrefix(part, "R") || d < 0 || d >= len(dirNames) {
+					verdict = "script-error:" + t
 					break
 				}
-				nblock++
-				helper = make(chan int, 1)
-				h := helper
-				full := k%2 == 1
-				go func() { h <- s.fetch(1, full) }()
-				// let it reach cond.Wait; it must not return
-				select {
-				case <-h:
-					verdict = "fetch-returned-on-empty-set"
-				case <-time.After(300 * time.Microsecond):
-				}
-				if verdict == "ok" {
-					_, v := s.observeQ(2, 2*time.Millisecond)
-					verdict = v
-				}
+				ds = append(ds, d)
 			}
-		case strings.HasPrefix(t, "R"):
-			d, err := strconv.Atoi(t[1:])
-			if err != nil || d < 0 || d >= len(dirNames) {
-				verdict = "script-error:" + t
+			if verdict != "ok" {
 				break
 			}
-			s.report(0, d, uint64(k))
-			ref[d] = true
-			if helper != nil {
-				select {
-				case got := <-helper:
-					if !ref[got] {
-						verdict = "fetch-returned-directory-not-in-set"
-					}
-					delete(ref, got)
-				case <-time.After(3 * time.Second):
-					verdict = "fetcher-not-woken-by-report"
-				}
-				helper = nil
+			for i, d := range ds {
+				s.report(0, d, uint64(k+i))
 			}
+			blocked = settled()
 		default:
 			verdict = "script-error:" + t
 		}
 	}
-	if helper != nil && verdict == "ok" { // script ended with a blocked fetch: release it
-		pill := 100
-		verdict = s.release(0, []int{1}, &pill)
-		helper = nil
+	// drain: fetch until one blocks (at most one per directory + 1)
+	for i := 0; verdict == "ok" && blocked == 0; i++ {
+		if i > len(dirNames)+1 {
+			verdict = "fetch-keeps-returning-after-every-directory-was-fetched"
+			break
+		}
+		blocked = spawnFetch(false)
 	}
-	// drain what the reference set says is left
-	for verdict == "ok" && len(ref) > 0 {
-		done := make(chan int, 1)
-		go func() { done <- s.fetch(0, false) }()
-		select {
-		case d := <-done:
-			if !ref[d] {
-				verdict = "fetch-returned-directory-not-in-set"
-			}
-			delete(ref, d)
-		case <-time.After(3 * time.Second):
-			verdict = "directory-lost:fetch-blocks-with-reported-directories-left"
+	// release the blocked fetchers one by one
+	pill := 100
+	for verdict == "ok" && blocked > 0 {
+		// is the observation explicable?  (if not: lost wake-up / lost directory; do not try to release)
+		if a := analyse(nthr, s.rec.snapshot()); a.verdict != "ok" {
+			verdict = a.verdict
+			break
+		}
+		if verdict = s.release(0, 1, &pill); verdict == "ok" {
+			blocked = settled()
 		}
 	}
-	return finish(s, id, 2, "", verdict, fmt.Sprintf("script len=%d blocking=%d", len(toks), nblock))
+	return finish(s, id, nthr, "", verdict, fmt.Sprintf("script len=%d blockedmax=%d", len(toks), maxblocked))
 }
 
 func runConc(id string, r *rng) (res result) {
@@ -673,7 +717,7 @@ func runConc(id string, r *rng) (res result) {
 			res = result{id: id, nthr: nthr, verdict: fmt.Sprintf("panic: %v", e), final: "?"}
 		}
 	}()
-	s := &sys{c: watcher.NewChanges(root)}
+	s := newSys()
 	type prodPlan struct {
 		dirs  []int
 		yield []bool
@@ -690,7 +734,7 @@ func runConc(id string, r *rng) (res result) {
 		}
 		total += n
 	}
-	// consumer 0 loops until poisoned; the others fetch a bounded number of times
+	// consumer 0 loops until poisoned; the others may fetch a bounded number of times
 	bounds := make([]int, nc)
 	fulls := make([]bool, nc)
 	for j := range bounds {
@@ -704,8 +748,10 @@ func runConc(id string, r *rng) (res result) {
 	startCons := func() {
 		for j := 0; j < nc; j++ {
 			cwg.Add(1)
+			atomic.AddInt32(&s.live, 1)
 			go func(j int) {
 				defer cwg.Done()
+				defer atomic.AddInt32(&s.live, -1)
 				for k := 0; bounds[j] < 0 || k < bounds[j]; k++ {
 					if d := s.fetch(np+j, fulls[j]); d >= 100 || d < 0 {
 						return
@@ -731,7 +777,11 @@ func runConc(id string, r *rng) (res result) {
 	switch kind {
 	case 0:
 		startCons()
-		time.Sleep(time.Duration(100+r.below(400)) * time.Microsecond)
+		if r.below(2) == 0 {
+			s.settle() // every consumer is parked before the burst
+		} else {
+			time.Sleep(time.Duration(r.below(300)) * time.Microsecond)
+		}
 		startProd()
 	case 1:
 		startProd()
@@ -742,24 +792,23 @@ func runConc(id string, r *rng) (res result) {
 		startCons()
 	}
 	pwg.Wait()
-	pending, verdict := s.observeQ(nthr, 12*time.Millisecond)
+	pending, verdict := s.observeQ()
 	npend := len(pending)
 	pill := 100
-	for verdict == "ok" && len(pending) > 0 {
-		verdict = s.release(mainThr, pending, &pill)
-		if verdict != "ok" {
-			break
+	if verdict == "ok" && npend > 0 {
+		// is the observation explicable?  (if not: lost wake-up / lost directory; do not try to release)
+		if a := analyse(nthr, s.rec.snapshot()); a.verdict != "ok" {
+			verdict = a.verdict
+		} else {
+			verdict = s.release(mainThr, npend, &pill)
 		}
-		// bounded consumers that were released may have nothing left to do; loopers exit on poison
-		s.waitStable(2 * time.Millisecond)
-		pending = pendingFetchers(s.rec.snapshot())
 	}
 	if verdict == "ok" {
 		done := make(chan struct{})
 		go func() { cwg.Wait(); close(done) }()
 		select {
 		case <-done:
-		case <-time.After(3 * time.Second):
+		case <-time.After(patience):
 			verdict = "consumer-goroutine-did-not-finish"
 		}
 	}
@@ -768,48 +817,94 @@ func runConc(id string, r *rng) (res result) {
 		fmt.Sprintf("conc %s P=%d C=%d D=%d reports=%d blockedAtQ=%d", kinds[kind], np, nc, nd, total, npend))
 }
 
+// ---------------------------------------------------------------- main: cases run one after the
+// other inside a process (goroutine statuses are read process-wide); -workers K re-executes this
+// binary K times on slices of the job list
 func main() {
 	mode := flag.String("mode", "script", "script | conc")
 	seed := flag.Uint64("seed", 1, "seed (conc)")
 	runs := flag.Int("runs", 100, "number of workloads (conc)")
-	par := flag.Int("par", 8, "workloads run in parallel")
+	from := flag.Int("from", 0, "first workload index (conc)")
+	workers := flag.Int("workers", 1, "child processes")
 	flag.Parse()
 	w := bufio.NewWriter(os.Stdout)
 	defer w.Flush()
-	var jobs []func() result
+	var lines []string
 	if *mode == "script" {
 		sc := bufio.NewScanner(os.Stdin)
 		sc.Buffer(make([]byte, 1<<20), 1<<26)
-		n := 0
 		for sc.Scan() {
-			line := sc.Text()
+			lines = append(lines, sc.Text())
+		}
+	}
+	if *workers > 1 {
+		type chunk struct {
+			args  []string
+			input string
+			out   []byte
+			err   error
+		}
+		var chunks []*chunk
+		K := *workers
+		if *mode == "script" {
+			per := (len(lines) + K - 1) / K
+			for a := 0; a < len(lines); a += per {
+				b := a + per
+				if b > len(lines) {
+					b = len(lines)
+				}
+				chunks = append(chunks, &chunk{args: []string{"-mode", "script"}, input: strings.Join(lines[a:b], "\n") + "\n"})
+			}
+		} else {
+			per := (*runs + K - 1) / K
+			for a := 0; a < *runs; a += per {
+				n := per
+				if a+n > *runs {
+					n = *runs - a
+				}
+				chunks = append(chunks, &chunk{args: []string{"-mode", "conc", "-seed", fmt.Sprint(*seed),
+					"-from", fmt.Sprint(*from + a), "-runs", fmt.Sprint(n)}})
+			}
+		}
+		var wg sync.WaitGroup
+		for _, c := range chunks {
+			wg.Add(1)
+			go func(c *chunk) {
+				defer wg.Done()
+				cmd := exec.Command(os.Args[0], c.args...)
+				cmd.Stdin = strings.NewReader(c.input)
+				cmd.Stderr = os.Stderr
+				c.out, c.err = cmd.Output()
+			}(c)
+		}
+		wg.Wait()
+		rc := 0
+		for _, c := range chunks {
+			w.Write(c.out)
+			if c.err != nil {
+				if ee, ok := c.err.(*exec.ExitError); ok && ee.ExitCode() == 66 {
+					rc = 66 // race detector
+				} else {
+					fmt.Fprintln(os.Stderr, "child failed:", c.err)
+					rc = 3
+				}
+			}
+		}
+		w.Flush()
+		os.Exit(rc)
+	}
+	emit := func(r result) {
+		fmt.Fprintf(w, "%s\t%d\t%s\t%s\t%s\t%s\t%s\n", r.id, r.nthr, r.history, r.trace, r.final, r.verdict, r.shape)
+	}
+	if *mode == "script" {
+		for _, line := range lines {
 			toks := strings.Fields(line)
-			id := fmt.Sprintf("script:%s", strings.Join(toks, "_"))
-			jobs = append(jobs, func() result { return runScript(id, toks) })
-			n++
+			emit(runScript("script:"+strings.Join(toks, "_"), toks))
 		}
 	} else {
-		for k := 0; k < *runs; k++ {
+		for k := *from; k < *from+*runs; k++ {
 			r := &rng{s: *seed*1000003 + uint64(k)*7919}
-			id := fmt.Sprintf("conc:seed=%d:run=%d", *seed, k)
-			jobs = append(jobs, func() result { return runConc(id, r) })
+			emit(runConc(fmt.Sprintf("conc:seed=%d:run=%d", *seed, k), r))
 		}
-	}
-	results := make([]result, len(jobs))
-	sem := make(chan struct{}, *par)
-	var wg sync.WaitGroup
-	for i, j := range jobs {
-		wg.Add(1)
-		sem <- struct{}{}
-		go func(i int, j func() result) {
-			defer wg.Done()
-			results[i] = j()
-			<-sem
-		}(i, j)
-	}
-	wg.Wait()
-	for _, r := range results {
-		final := r.final
-		fmt.Fprintf(w, "%s\t%d\t%s\t%s\t%s\t%s\t%s\n", r.id, r.nthr, r.history, r.trace, final, r.verdict, r.shape)
 	}
 }
